@@ -69,6 +69,15 @@ ROUND_VALUES = [Fraction(k, 2) for k in range(-6, 7)]
 MARGIN = z3.RealVal('1/1000000')
 
 
+import re as _re
+_DRAW = _re.compile(r'(\.(pick|u)\d+$)|zero-weight-pick')
+
+
+def _improvised(missing):
+    """generator draws the real run asked for although the replayed model does not define them (it left the predicted path)"""
+    return [m for m in missing if _DRAW.search(str(m))]
+
+
 def _isnan(x):
     return isinstance(x, float) and x != x
 
@@ -589,8 +598,8 @@ def explore(harness, *, tier='quick', timeout_ms=20000, max_paths=20000, budget_
                     flat = {}
                     _flatten(rctx.observed, flat)
                     mism = []
-                    if rctx.violations and rctx.missing:
-                        mism.append(f"real run left the path (it asked for generator draws the witness does not define: {rctx.missing[:3]}): "
+                    if rctx.violations and _improvised(rctx.missing):
+                        mism.append(f"real run left the path (it asked for generator draws the witness does not define: {_improvised(rctx.missing)[:3]}): "
                                     f"violations={[l for l, _ in rctx.violations]} not reported, the improvised draws are not a run of the real generator")
                     elif rctx.violations and not interior:
                         mism.append(f"real run on a boundary witness: violations={[l for l, _ in rctx.violations]} (not reported: "
@@ -600,7 +609,7 @@ def explore(harness, *, tier='quick', timeout_ms=20000, max_paths=20000, budget_
                         # (every branch decision holds with a margin): a replayed violation
                         # ... unless it disappears when the inputs are nudged: merged tolerance tests (isclose inside If terms) are not
                         # branch decisions, so a witness can still sit exactly on such a band edge, where IEEE and exact arithmetic differ
-                        nudged = {k: ((v * (1 + Fraction(1, 10**7)) + Fraction(1, 10**9)) if (isinstance(v, Fraction) and not k.startswith('rng')) else v)
+                        nudged = {k: ((v * (1 - Fraction(1, 10**7))) if (isinstance(v, Fraction) and not _DRAW.search(k)) else v)       # (towards 0: stays inside sign / range preconditions)
                                   for k, v in sxm.items()}
                         try:
                             rctx2, _, _ = run_once(harness, [], 'real', nudged, timeout_ms, tier)
@@ -664,7 +673,7 @@ def confirm_violation(harness, label, model, timeout_ms, tier):
     info = dict(status=rstatus, labels=labels, missing=rctx.missing[:5])
     if rerr:
         info['err'] = rerr[-600:]
-    if rctx.missing and label not in labels:
+    if _improvised(rctx.missing) and label not in labels:
         # the real run left the predicted path and improvised generator draws: whatever else it violated is not evidence
         info['labels'] = []
     return (label in labels), info
